@@ -26,13 +26,16 @@ def check(run):
         "token with the extracted model.  (b) replace protocol: save sequences in several processes with a fault plan (kill before "
         "the k-th file syscall, error return injected into rename/openat/write/close) run under strace; files left on disk and "
         "SAVE outcomes compared with the model; every crash state, plus every prefix of the file being written, is loaded by a fresh "
-        "process.  (c) every truncation offset (quick: a stride) and random bit flips of valid text and binary states through "
-        "vsim load under a timeout.  distinct = distinct case text; non-trivial = a read that delivers or fails on a boundary, a "
-        "fault plan that changes the outcome, a damaged file")
+        "process.  (c) every truncation offset (quick: a stride + all block boundaries + the first bytes of hill records) and random "
+        "bit flips of valid text and binary states through vsim load under a timeout (thorough: ASan+UBSan build); every text prefix "
+        "is also run through the extracted text-reader model (error / no error compared).  distinct = distinct case text; "
+        "non-trivial = a read that delivers or fails on a boundary, a fault plan that changes the outcome, a damaged file")
     run.assumptions += [
         "rename(2) is atomic and a closed file's data is durable (no fsync is issued by the code): OS facts, not modelled",
-        "the reader's memory safety on damaged text/binary state files is explored (timeout + exit status), not proved",
-        "std::vector<T>::max_size() = PTRDIFF_MAX / sizeof(T) (libstdc++) decides when resize throws in the model",
+        "the reader's memory safety on damaged text/binary state files is explored (timeout + exit status, ASan in the thorough tier), not proved",
+        "std::vector<T>::max_size() = PTRDIFF_MAX / sizeof(T) (libstdc++) decides when resize would throw in the model",
+        "text-reader model: words are white-space separated, braces are words of their own, closing braces end their line; "
+        "type-specific state readers consume brace-balanced pieces (hypothesis data_wellformed, proved for the three modelled readers)",
     ]
     st = V.standard_start(run, PROP, EXTRACT, DRIVER, PROGS, extra_ml=())
     if st is None:
